@@ -118,6 +118,9 @@ func (tx *SignedTransaction) GetExtraLimit() int {
 	if out.Amount.Cmp(step) < 0 {
 		return ExtraSizeGeneralLimit
 	}
+	if out.Amount.Cmp(step.Mul(ExtraSizeStorageCapacity/ExtraSizeStorageStep)) >= 0 {
+		return ExtraSizeStorageCapacity
+	}
 	cells := out.Amount.Count(step)
 	limit := cells * ExtraSizeStorageStep
 	if limit > ExtraSizeStorageCapacity {
